@@ -1,4 +1,5 @@
 """C12 - operations are pure: no hidden state and no mutation of their input (structural clauses)."""
+import re
 from facts import walk, render, role, is_call, AnalysisBroken
 from engines import ff, nth_arg, receiver, path, is_this_like, is_write_context
 import fields
@@ -126,11 +127,18 @@ def run(F, rep):
                 rep.check(ok, 'C12.G1', '%s|%s(%s)' % (f.short, n['callee'], render(n['c'][0]) if n.get('c') else ''), f.where(n),
                           '%s changes the process-wide libxml2 default `%s` and does not restore the previous value: later parses in the same process keep or drop whitespace-only text nodes depending on which libCellML call ran before' % (f.short, n['callee']),
                           'previous value restored on every exit')
-            if n.get('k') == 'Call' and n.get('callee') in HANDLER_SETTERS and n.get('c') and n['c'][-1].get('k') != 'Null_' and render(n['c'][-1]) != 'nullptr':
-                n_g += 1
-                resets = [x for x in f.walk() if x.get('k') == 'Call' and x.get('callee') == n['callee'] and x is not n and render(x['c'][-1]) in ('nullptr',)]
-                ok = bool(resets) and must_pass(f.cfg_for(n), n, [x['i'] for x in resets])
-                rep.check(ok, 'C12.G1', '%s|%s' % (f.short, n['callee']), f.where(n), 'error handler installed by %s is not uninstalled on every exit' % f.short, 'handler reset to null on every exit')
+    # error handlers: install ... uninstall, also when the two halves live in file-local helpers
+    from engines import pairing_with_helpers
+
+    def _inst(c):
+        return c['callee'] if c.get('callee') in HANDLER_SETTERS and c.get('c') and c['c'][-1].get('k') != 'Null_' and render(c['c'][-1]) != 'nullptr' else None
+
+    def _uninst(c):
+        return c['callee'] if c.get('callee') in HANDLER_SETTERS and c.get('c') and (c['c'][-1].get('k') == 'Null_' or render(c['c'][-1]) == 'nullptr') else None
+    xf = [f for f in F.funcs.values() if re.search(r'xml\w*\.cpp$', f.file)]
+    for f, c, k_, ok, how in pairing_with_helpers(F, xf, _inst, _uninst):
+        n_g += 1
+        rep.check(ok, 'C12.G1', '%s|%s' % (f.short, k_), f.where(c), 'error handler installed in %s is not uninstalled on every exit' % f.short, 'handler reset to null on every exit (%s)' % how)
     if n_g < 5:
         raise AnalysisBroken('global libxml2 setter calls: %d found, 5 confirmed' % n_g)
 
